@@ -277,8 +277,101 @@ PRINT_ENVS = [{"suppress": True}, {"precision": 2}, {"threshold": 2, "edgeitems"
               {"floatmode": "fixed"}, {"sign": "+"}]
 
 
+def rawarg_calls():
+    """calls whose arguments are plain arrays / lists / dicts handed over by reference -> (label, maker) with
+    maker() -> (dict of watched arguments, thunk)"""
+    out = []
+    q = numpoly.variable(2)
+    base = numpoly.polynomial([q[0] + 1, q[1] ** 2, q[0] * q[1] - 2])
+
+    def add(label, maker):
+        out.append((label, maker))
+    # index / selector arrays of every integer flavour, in and out of range
+    for dt in ("i8", "i4", "u1", "i2"):
+        for vals in ([1, 0, 2], [5, 0, 2], [2, 4, 7]) + (([-1, 0, -5],) if dt[0] == "i" else ()):
+            for mode in ("raise", "wrap", "clip"):
+                for sp_, mod in (("numpoly", numpoly), ("numpy", numpy)):
+                    def mk(dt=dt, vals=vals, mode=mode, mod=mod):
+                        idx = numpy.array(vals, dtype=dt)
+                        ch = [base, base * 2, base - 1]
+                        return {"index": idx, "c0": ch[0], "c1": ch[1], "c2": ch[2]}, lambda: mod.choose(idx, ch, mode=mode)
+                    add(f"{sp_}.choose({dt}{vals}, mode={mode})", mk)
+    # exponent tables / coefficient lists / names handed to the constructors
+    for edt, order in (("u4", "C"), ("u4", "F"), ("i8", "C"), ("u2", "C"), ("list", "C")):
+        def exps(edt=edt, order=order):
+            e = [[0, 0], [0, 1], [1, 1], [2, 0]]
+            return e if edt == "list" else numpy.array(e, dtype=edt, order=order)
+        def mk_nd(exps=exps):
+            e = exps()
+            return {"exponents": e}, lambda: numpoly.ndpoly(exponents=e, shape=(2,), names=("q0", "q1"))
+        add(f"ndpoly(exponents={edt}/{order})", mk_nd)
+        for rc in (None, True, False):
+            for rn in (None, True, False):
+                def mk_fa(exps=exps, rc=rc, rn=rn):
+                    e = exps()
+                    c = [numpy.array([1, 2]), numpy.array([0, 0]), numpy.array([3, 0]), numpy.array([0, 5])]
+                    nm = ["q0", "q1"]
+                    kw = {k_: v_ for k_, v_ in (("retain_coefficients", rc), ("retain_names", rn)) if v_ is not None}
+                    return {"exponents": e, "coefficients": c, "names": nm}, lambda: numpoly.polynomial_from_attributes(e, c, nm, **kw)
+                add(f"polynomial_from_attributes(exponents={edt}/{order}, retain_coefficients={rc}, retain_names={rn})", mk_fa)
+        def mk_fa2(exps=exps):
+            e = exps()
+            c = numpy.array([[1, 2], [0, 0], [3, 0], [0, 5]])
+            return {"exponents": e, "coefficients": c}, lambda: numpoly.ndpoly.from_attributes(e, c, "q", retain_coefficients=True)
+        add(f"ndpoly.from_attributes(exponents={edt}/{order}, 2-d coefficient array)", mk_fa2)
+
+    def mk_dict():
+        d = {(0, 1): numpy.array([1, 2]), (2, 0): numpy.array([0, 3]), (0, 0): numpy.array([0, 0])}
+        return {"dict": d}, lambda: numpoly.polynomial(d)
+    add("polynomial(dict of arrays)", mk_dict)
+
+    def mk_raw():
+        raw = numpy.array(numpy.ndarray.view(base, numpy.ndarray))
+        return {"raw": raw}, lambda: numpoly.polynomial(raw, names=("q0", "q1"))
+    add("polynomial(structured array)", mk_raw)
+    for order in ("C", "F"):
+        def mk_arr(order=order):
+            a = numpy.array([[1.5, 2.0], [0.0, -1.0]], order=order)
+            return {"array": a}, lambda: (numpoly.polynomial(a), numpoly.aspolynomial(a), a + base[:2], a * base[:2], base[:2] - a)
+        add(f"numeric array {order} through constructors and operators", mk_arr)
+    # evaluation arguments
+    def mk_call():
+        a1, a2 = numpy.array([1, 2, 3]), numpy.array([[0.5], [2.0]])
+        kw = {"q1": a2}
+        args = (a1,)
+        return {"a1": a1, "a2": a2, "kwargs": kw, "args": args, "p": base}, lambda: (base(a1, a2), base(a1, q1=a2), numpoly.call(base, args, kw), base(q0=a1))
+    add("evaluation at arrays", mk_call)
+    # selectors, masks, repeats, sections
+    def mk_sel():
+        mask = numpy.array([True, False, True])
+        reps = numpy.array([2, 0, 1])
+        sect = numpy.array([1, 2])
+        shape = [3, 1]
+        axes = [0]
+        return ({"mask": mask, "repeats": reps, "sections": sect, "shape": shape, "axes": axes, "p": base},
+                lambda: (numpoly.where(mask, base, 0), base[mask], numpoly.repeat(base, reps, axis=0), numpoly.split(base, sect), numpoly.array_split(base, sect),
+                         numpoly.reshape(base, shape), numpoly.sum(base, axis=tuple(axes)), numpoly.expand_dims(base, axes), numpoly.tile(base, shape),
+                         numpoly.diff(base, prepend=reps), numpoly.ediff1d(base, to_end=reps), base[sect], base[list(sect)], numpoly.compress(mask, base) if hasattr(numpoly, "compress") else None))
+    add("masks, repeats, sections, shapes, axes", mk_sel)
+    # index generation and sorting
+    def mk_idx():
+        keys = numpy.array([[2, 0, 1, 1], [0, 2, 1, 0]], dtype="u4")
+        start, stop = numpy.array([0, 1]), numpy.array([3, 4])
+        grid = numpy.array(list(itertools.product(range(3), repeat=2)))
+        bound = numpy.array([2, 1])
+        norm = numpy.array([0.5, 2.0])
+        return ({"keys": keys, "start": start, "stop": stop, "grid": grid, "bound": bound, "norm": norm},
+                lambda: (numpoly.glexsort(keys), numpoly.glexsort(keys, graded=True, reverse=True), numpoly.glexindex(start, stop), numpoly.glexindex(start, stop, cross_truncation=norm),
+                         numpoly.bindex(start, stop), numpoly.cross_truncate(grid, bound, 1.0), numpoly.cross_truncate(grid, bound, norm[0]), numpoly.monomial(start, stop)))
+    add("glexsort / glexindex / bindex / cross_truncate / monomial", mk_idx)
+    return out
+
+
 def cases(tier, seed):
     out = []
+    nraw = len(rawarg_calls())
+    for i0 in range(0, nraw, 40):
+        out.append({"k": "rawargs", "i0": i0, "i1": min(nraw, i0 + 40)})
     nforms = len(operand_forms())
     names = sorted(registry())
     nkw = len(keyword_calls())
@@ -328,6 +421,12 @@ def observe(R, label, form_label, args, call, exempt=()):
 
 
 def run_case(case, R):
+    if case["k"] == "rawargs":
+        R.state(("rawargs", case["i0"]))
+        for label, maker in rawarg_calls()[case["i0"]:case["i1"]]:
+            watched, thunk = maker()
+            observe(R, label, "plain arguments", watched, thunk)
+        return
     forms = operand_forms()
     flabel, maker = forms[case["form"]]
     R.state((case["k"], case["form"], case.get("i0", 0)))
